@@ -125,6 +125,18 @@ def one_pass(ctx, src, independent, pat, order, ending, case, tag, entry='separa
                               'mode': 'independent' if independent else 'cumulative'}, case=case, k=k, got=ln, want=exp)
                 continue
             name = f.fields.get('name') if isinstance(f.fields, dict) else None
+            if f.category == 'runtime' and isinstance(f.fields.get('exception'), SyntaxError):
+                # the tools were run on text that does not parse (run before/without verify): same rule as for
+                # the syntax feedback -- CPython's line for the presented text, in whole-file numbering
+                try:
+                    ast.parse(code)
+                    exp = None
+                except SyntaxError as e2:
+                    exp = (e2.lineno or 1) + offset
+                if exp is not None and exp != ln:
+                    ctx.fail({'symptom': 'syntax error reported by run() is not on the whole-file line', 'pass': tag,
+                              'where': where, 'mode': mode_name}, case=case, k=k, got=ln, want=exp)
+                continue
             if f.category == 'runtime' and f.label != 'name_error':
                 m = re.search(r"'(u\d+)\.txt'", str(f.fields.get('exception', '')) + f.message)
                 name = m.group(1) if m else None
@@ -229,7 +241,9 @@ def phases(tier):
     if tier == 'quick':
         orders = [TOOLS]
         return [Phase('sections', make_body(4, orders, True), setup=_setup, chunk=300,
-                      describe='all files of <=4 lines x pattern x mode x ending x second pass')]
+                      describe='all files of <=4 lines x pattern x mode x ending x second pass'),
+                Phase('tool-orders', make_body(3, list(itertools.permutations(TOOLS)), False), setup=_setup, chunk=300,
+                      describe='all files of <=3 lines x every order of verify/tifa/run (tools on text that was not verified)')]
     orders = list(itertools.permutations(TOOLS))
     return [Phase('sections', make_body(5, [TOOLS], True), setup=_setup, chunk=300,
                   describe='all files of <=5 lines x pattern x mode x ending x second pass'),
